@@ -692,6 +692,7 @@ func trRun(repo string) (map[string]string, []string) {
 		b.WriteString(trPerfImports(body.String() + strings.Join(t.decls[u], "\n")))
 		b.WriteString(trTableImports(body.String() + strings.Join(t.decls[u], "\n")))
 		b.WriteString(trCreateImports(body.String())) // syntax nodes, time.Parse, decimal.NewFromString (trans_units_create.go)
+		b.WriteString(trImportImports(body.String())) // time.Parse with the importers' layouts (trans_units_import.go)
 		for _, imp := range trMappingImports(body.String() + strings.Join(t.decls[u], "\n")) {
 			b.WriteString(imp + "\n") // Regexp.Ptr (trans_units_mapping.go)
 		}
